@@ -503,3 +503,140 @@ def run_errpos_types(res, fx):
     others = [l["ty"] for l in f["locals"] if ("CharIndices" in l["ty"] or "std::str::Bytes" in l["ty"] or "Enumerate<std::slice::Iter" in l["ty"])]
     res.check(bool(its) and not others, "ERR-POS/TY", "src/ir.rs|parse|iterator-type", "src/ir.rs (parse)",
               f"scan iterator types: Enumerate<Chars> locals = {len(its)}, byte-indexed iterators = {others}")
+
+
+def root_local(f, local, depth=8):
+    """Follow `_x = copy/move _y` (single definition) back to its origin."""
+    for _ in range(depth):
+        defs = []
+        for b in f["blocks"]:
+            for st in b["stmts"]:
+                if st["k"] == "assign" and st["place"]["local"] == local and not st["place"]["proj"]:
+                    defs.append(st)
+        if len(defs) != 1 or defs[0]["rv"]["k"] != "use" or defs[0]["rv"]["op"]["k"] not in ("copy", "move"):
+            return local, (defs[0] if len(defs) == 1 else None)
+        p = defs[0]["rv"]["op"]["place"]
+        if p["proj"]:
+            return local, defs[0]
+        local = p["local"]
+    return local, None
+
+
+def run_tape_pair_mir(res, fx):
+    res.rule("TAPE-PAIR/MIR", "Memory::make_accessible on MIR: the copy of the old contents dominates the free of the old block; no store to "
+             "buffer/size/offset can precede the copy or the free; on every growing path all three fields are stored; the copy "
+             "destination and the offset update add the same local; a non-growing path (no allocation) exists", floor=5, what="ordering obligations")
+    try:
+        f = fx.fn("runtime::Memory::make_accessible")
+    except Missing as m:
+        res.missing("TAPE-PAIR/MIR", m)
+        return
+    w = "src/runtime.rs (Memory::make_accessible)"
+    key = "src/runtime.rs|make_accessible"
+    blocks = f["blocks"]
+    copyb = [i for i, t in calls(f) if strip_generics(callee(t)[1] or callee(t)[0] or "").endswith(("copy_to_nonoverlapping", "ptr::copy_nonoverlapping", "copy_to", "ptr::copy"))]
+    freeb = [i for i, t in calls(f) if strip_generics(callee(t)[1] or callee(t)[0] or "").endswith("alloc::dealloc")]
+    allocb = [i for i, t in calls(f) if strip_generics(callee(t)[1] or callee(t)[0] or "") in ALLOC]
+    stores = {}
+    for i, b in enumerate(blocks):
+        for st in b["stmts"]:
+            if st["k"] == "assign":
+                for e in st["place"]["proj"]:
+                    if e["k"] == "field" and e.get("owner", "").endswith("runtime::Memory"):
+                        stores.setdefault(e["name"], []).append((i, st))
+    dom = dominators(f)
+    ok = len(copyb) == 1 and len(freeb) == 1 and len(allocb) == 1
+    res.check(ok, "TAPE-PAIR/MIR", key + "|sites", w, f"expected one allocation, one copy and one dealloc; found {len(allocb)}, {len(copyb)}, {len(freeb)}")
+    if not ok:
+        return
+    cb, fb, ab = copyb[0], freeb[0], allocb[0]
+    res.check(cb in dom.get(fb, set()) and cb != fb, "TAPE-PAIR/MIR", key + "|copy-dominates-free", w,
+              "the old block can be freed on a path that has not copied its contents into the new block")
+    bad = []
+    for name, lst in stores.items():
+        for (sb, st) in lst:
+            r = reachable(f, sb)
+            if sb in (cb, fb) or cb in (r - {sb}) or fb in (r - {sb}):
+                bad.append(f"{name} (line {st['line']})")
+    res.check(not bad and set(stores) >= {"buffer", "size", "offset"}, "TAPE-PAIR/MIR", key + "|stores-after", w,
+              f"tape fields stored before the copy / free of the old block: {bad}; fields stored at all: {sorted(stores)}")
+    # every growing path stores all three fields
+    start = blocks[ab]["term"]["target"]
+    miss = []
+    rets = {i for i, b in enumerate(blocks) if b["term"]["k"] == "return"}
+    for name in ("buffer", "size", "offset"):
+        sb = {s for s, _ in stores.get(name, [])}
+        if start is not None and (reachable(f, start, stop=sb) & rets):
+            miss.append(name)
+    res.check(not miss, "TAPE-PAIR/MIR", key + "|all-fields", w, f"a growing path returns without storing {miss}")
+    # same delta
+    ct = blocks[cb]["term"]
+    dst_local = ct["args"][1]["place"]["local"] if len(ct["args"]) > 1 and ct["args"][1]["k"] in ("copy", "move") else None
+    delta1 = delta2 = None
+    for i, t in calls(f):
+        nm = strip_generics(callee(t)[1] or callee(t)[0] or "")
+        if nm.endswith("::wrapping_add") or nm.endswith("::add") or nm.endswith("::offset"):
+            if dst_local is not None and root_local(f, dst_local)[0] == t["dest"]["local"] or t["dest"]["local"] == dst_local:
+                if len(t["args"]) > 1 and t["args"][1]["k"] in ("copy", "move"):
+                    delta1 = root_local(f, t["args"][1]["place"]["local"])[0]
+    for sb, st in stores.get("offset", []):
+        src = st["rv"].get("op", {})
+        if src.get("k") in ("copy", "move"):
+            l = root_local(f, src["place"]["local"])[0]
+            for i, t in calls(f):
+                if t["dest"]["local"] == l and len(t["args"]) > 1 and t["args"][1]["k"] in ("copy", "move"):
+                    delta2 = root_local(f, t["args"][1]["place"]["local"])[0]
+    n1 = f["locals"][delta1]["name"] if delta1 is not None else None
+    res.check(delta1 is not None and delta1 == delta2, "TAPE-PAIR/MIR", key + "|same-delta", w,
+              f"copy destination is shifted by `{n1}` (local {delta1}) but offset is adjusted by local {delta2}: the logical pointer is not preserved")
+    # the freed layout is Layout::array::<C>(self.size) with the *old* size (no store precedes it, see above)
+    def call_defining(local):
+        l, _ = root_local(f, local)
+        for i, t in calls(f):
+            if t["dest"]["local"] == l:
+                return t
+        return None
+    ft = blocks[fb]["term"]
+    chain_ok = False
+    why = "layout argument not traceable"
+    if len(ft["args"]) > 1 and ft["args"][1]["k"] in ("copy", "move"):
+        t1 = call_defining(ft["args"][1]["place"]["local"])
+        if t1 is not None and strip_generics(callee(t1)[1] or callee(t1)[0] or "").endswith("::unwrap") and t1["args"] and t1["args"][0]["k"] in ("copy", "move"):
+            t1 = call_defining(t1["args"][0]["place"]["local"])
+        if t1 is not None and strip_generics(callee(t1)[1] or callee(t1)[0] or "").endswith("Layout::array") and t1["args"][0]["k"] in ("copy", "move"):
+            l, origin = root_local(f, t1["args"][0]["place"]["local"])
+            src = origin["rv"]["op"]["place"] if origin is not None and origin["rv"]["k"] == "use" and origin["rv"]["op"]["k"] in ("copy", "move") else None
+            fields = [e.get("name") for e in src["proj"] if e["k"] == "field"] if src else []
+            chain_ok = fields == ["size"]
+            why = f"Layout::array argument is local {l} ({f['locals'][l]['name']}), read from {fields or 'a computed value'}"
+        else:
+            why = "layout is not Layout::array(..)"
+    res.check(chain_ok, "TAPE-PAIR/MIR", key + "|free-layout", w, f"the old block must be freed with Layout::array::<C>(self.size) of the old size; {why}")
+    # a non-growing path exists
+    r = reachable(f, 0, stop={ab})
+    res.check(bool(r & rets), "TAPE-PAIR/MIR", key + "|noop-path", w, "every call reallocates: there is no path that returns without allocating")
+    res.sample({"rule": "TAPE-PAIR/MIR", "alloc_block": ab, "copy_block": cb, "free_block": fb,
+                "stores": {k: [s for s, _ in v] for k, v in stores.items()}, "delta_local": n1})
+
+
+def run_release_noop(res, fxr):
+    res.rule("BC-THREAD/MIR", "release profile: `noop` is one call through `(*ip).op` passing its five parameters unchanged and in order "
+             "(type-checked MIR of the cfg(not(debug_assertions)) variant)", floor=1, what="functions")
+    fs = [f for f in fxr.functions("lib") if strip_generics(f["name"]).endswith("bcint::ops::noop")]
+    if len(fs) != 1 or fxr.lib_doc()["debug_assertions"]:
+        res.bad("BC-THREAD/MIR", "release-noop|missing", "src/exec/bcint/ops.rs", f"release `noop` not found in the release-profile facts ({len(fs)})")
+        return
+    f = fs[0]
+    cs = list(calls(f))
+    ok = False
+    why = f"{len(cs)} calls"
+    if len(cs) == 1:
+        _, t = cs[0]
+        fl = t["func"]["place"]["local"] if t["func"]["k"] in ("copy", "move") else None
+        origin = root_local(f, fl)[1] if fl is not None else None
+        via_op = origin is not None and origin["rv"]["k"] == "use" and origin["rv"]["op"]["k"] in ("copy", "move") and \
+            origin["rv"]["op"]["place"]["local"] == 3 and [e.get("name") for e in origin["rv"]["op"]["place"]["proj"] if e["k"] == "field"] == ["op"]
+        args = [root_local(f, a["place"]["local"])[0] if a["k"] in ("copy", "move") else None for a in t["args"]]
+        ok = via_op and args == [1, 2, 3, 4, 5]
+        why = f"callee through (*ip).op: {via_op}; arguments are parameters {args}"
+    res.check(ok, "BC-THREAD/MIR", "src/exec/bcint/ops.rs|noop|release", "src/exec/bcint/ops.rs (noop, release)", "release noop: " + why)
